@@ -245,6 +245,23 @@ func BuildAction(n *wire.N, h Hist) (of.Action, error) {
 		if uint64(a.Flags) != fl {
 			a.Flags = uint16(fl)
 		}
+		if h.Variant == 1 {
+			// the calls the API refuses (the counterpart of an accepted exclusive flag) are made as
+			// well, their error ignored the way a caller that only logs it would: a refused call must
+			// leave no trace in the value
+			if fl&1 != 0 && fl&2 == 0 {
+				a.SetDNAT()
+			}
+			if fl&2 != 0 && fl&1 == 0 {
+				a.SetSNAT()
+			}
+			if fl&8 != 0 && fl&16 == 0 {
+				a.SetRandom()
+			}
+			if fl&16 != 0 && fl&8 == 0 {
+				a.SetProtoHash()
+			}
+		}
 		// the six range setters, in the order given by the history (the result must not depend on it)
 		type st struct {
 			bit uint64
